@@ -571,16 +571,20 @@ class EndpointLookupInterface(ThingWithCommonRD, ObservableResource):
                     def matches(x, original_matches=matches):
                         return any(original_matches(v) for v in x.split())
 
+                # The filters are applied right away (lists, not generator
+                # expressions): a lazily evaluated generator would only look
+                # at search_key and matches when it is finally consumed, and
+                # then see the values of the last filter for all of them.
                 if search_key == "href":
-                    candidates = (
+                    candidates = [
                         c
                         for c in candidates
                         if matches(c.href)
                         or any(matches(r.href) for r in c.get_based_links().links)
-                    )
+                    ]
                     continue
 
-                candidates = (
+                candidates = [
                     c
                     for c in candidates
                     if (
@@ -593,7 +597,7 @@ class EndpointLookupInterface(ThingWithCommonRD, ObservableResource):
                         _link_matches(r, search_key, matches)
                         for r in c.get_based_links().links
                     )
-                )
+                ]
 
         candidates = _paginate(candidates, query)
 
@@ -631,18 +635,19 @@ class ResourceLookupInterface(ThingWithCommonRD, ObservableResource):
                     def matches(x, original_matches=matches):
                         return any(original_matches(v) for v in x.split())
 
+                # applied right away, see EndpointLookupInterface
                 if search_key == "href":
-                    candidates = (
+                    candidates = [
                         (e, c)
                         for (e, c) in candidates
                         if matches(c.href)
                         or matches(
                             e.href
                         )  # FIXME: They SHOULD give this as relative as we do, but don't have to
-                    )
+                    ]
                     continue
 
-                candidates = (
+                candidates = [
                     (e, c)
                     for (e, c) in candidates
                     if _link_matches(c, search_key, matches)
@@ -652,7 +657,7 @@ class ResourceLookupInterface(ThingWithCommonRD, ObservableResource):
                             matches(x) for x in e.registration_parameters[search_key]
                         )
                     )
-                )
+                ]
 
         # strip endpoint
         candidates = (c for (e, c) in candidates)
